@@ -142,12 +142,16 @@ def shapes(ref, other):
             ("gen2", ("gen2", "Dict", ("ref", ("", "str")), r)), ("union_none", ("union", r, ("none",))),
             ("union", ("union", ("ref", other), r)), ("nested", ("gen1", "List", ("gen2", "Dict", r, ("union", r, ("ref", other))))),
             ("lower_generic", ("gen1", "list", r)), ("string", ("str",)), ("none", ("none",)),
-            ("generic_in_union", ("union", ("gen1", "List", r), ("none",))), ("generic_left_of_union", ("union", ("gen1", "List", ("ref", other)), r)), ("generic2_in_union", ("union", ("ref", other), ("gen2", "Dict", ("ref", ("", "str")), r)))]
+            ("generic_in_union", ("union", ("gen1", "List", r), ("none",))), ("generic_left_of_union", ("union", ("gen1", "List", ("ref", other)), r)), ("generic2_in_union", ("union", ("ref", other), ("gen2", "Dict", ("ref", ("", "str")), r))),
+            ("generic_right_of_union", ("union", ("ref", other), ("gen1", "List", r))), ("generic_mid_union3", ("union", ("union", ("ref", other), ("gen1", "List", r)), ("none",))),
+            ("generic_first_union3", ("union", ("union", ("gen1", "List", r), ("ref", other)), ("none",))), ("generics_both_sides", ("union", ("gen1", "List", ("ref", other)), ("gen2", "Dict", ("ref", ("", "str")), r))),
+            ("union_in_generic_in_union", ("union", ("gen1", "Optional", ("union", r, ("gen1", "List", ("ref", other)))), ("none",))),
+            ("qualified_container", ("gen1", "typing.List", r)), ("qualified_container2_in_union", ("union", ("ref", other), ("gen2", "typing.Dict", ("ref", ("", "str")), r)))]
 
 
 def annotation_matrix():
     out = []
-    forms = ["from", "fromas", "local", "mod", "unbound", "builtin_type", "self"]
+    forms = ["from", "fromas", "local", "mod", "modas", "unbound", "unbound_qual", "builtin_type", "self"]
     for form in forms:
         imps, classes, ref = form_ref(form, "Dep", "K")
         if form == "unbound":
@@ -192,20 +196,17 @@ def rand_class(rng, allow_qualified=True):
         k = rng.random()
         if k < 0.45 or depth > 2:
             return ("ref", rref())
+        q = "typing." if rng.random() < 0.25 else ""
         if k < 0.6:
-            return ("gen1", rng.choice(TYPING1), rty(depth + 1))
+            return ("gen1", q + rng.choice(TYPING1[:4]) if q else rng.choice(TYPING1), rty(depth + 1))
         if k < 0.7:
-            return ("gen2", rng.choice(TYPING2), rty(depth + 1), rty(depth + 1))
+            return ("gen2", q + rng.choice(TYPING2[:2]) if q else rng.choice(TYPING2), rty(depth + 1), rty(depth + 1))
         if k < 0.85:
-            # operands in source order; at most one generic, and a generic in front only in a two-operand union
+            # operands in source order; any of them may be a generic
             ops = [rng.choice([("ref", rref()), ("ref", rref()), ("none",)]) for _ in range(rng.randint(2, 3))]
-            if rng.random() < 0.4:
-                g = ("gen1", rng.choice(TYPING1), rty(depth + 1)) if rng.random() < 0.6 else ("gen2", rng.choice(TYPING2), rty(depth + 1), rty(depth + 1))
-                i = rng.randrange(len(ops))
-                if i == 0:
-                    ops = [g, ops[1]]
-                else:
-                    ops[i] = g
+            for i in range(len(ops)):
+                if rng.random() < 0.3:
+                    ops[i] = ("gen1", rng.choice(TYPING1), rty(depth + 1)) if rng.random() < 0.6 else ("gen2", rng.choice(TYPING2), rty(depth + 1), rty(depth + 1))
             t = ops[0]
             for x in ops[1:]:
                 t = ("union", t, x)
@@ -218,7 +219,8 @@ def rand_class(rng, allow_qualified=True):
             return ("inst", rref())
         if k < 0.85:
             return ("attr", "self", rng.choice(["x", "y", "D0"]))
-        return ("call", rng.choice(["self", "other"]), rng.choice(["run", "D1"]))
+        objs = ["self", "other"] + [r[1] for fo, r in pool if fo in ("from", "fromas")]
+        return ("call", rng.choice(objs), rng.choice(["run", "D1"]))
 
     def rnode(depth):
         k = rkind()
@@ -378,35 +380,6 @@ def variants(rng, file, cls):
     return out
 
 
-def refs_under_union_generic(cls):
-    """names of the references that occur (also) inside a generic that is an operand of a union"""
-    out = set()
-
-    def walk(t, in_union):
-        if t is None:
-            return
-        k = t[0]
-        if k == "union":
-            if t[1][0] in ("gen1", "gen2") or t[2][0] in ("gen1", "gen2"):
-                out.update(cg.cref_src(r) for r in cg.ty_refs(t))
-            walk(t[1], True)
-            walk(t[2], True)
-        elif k in ("gen1", "gen2"):
-            if in_union:
-                out.update(cg.cref_src(r) for r in cg.ty_refs(t))
-            else:
-                for x in t[2:]:
-                    walk(x, False)
-
-    for m in cls["members"]:
-        if m[0] == "attr":
-            walk(m[2], False)
-        elif m[0] == "method":
-            for t in m[1]["params"] + [m[1]["ret"]]:
-                walk(t, False)
-    return out
-
-
 CORE_BUILTIN_TYPES = ["int", "str", "float", "bool", "bytes", "list", "dict", "set", "tuple", "frozenset", "object", "type",
                       "Exception", "ValueError", "TypeError", "KeyError"]
 
@@ -462,11 +435,11 @@ REQ_GEN = REQ.replace("Class.CBORun.", "Class.CBORun Class.CBOGeneric.")
 def generic_cases():
     out = []
     run = ("method", dict(name="run", decos=[], params=[], ret=None, body=[]))
-    for form in ("from", "fromas", "local", "builtin_type"):
+    for form in ("from", "fromas", "local", "builtin_type", "mod", "modas", "unbound_qual"):
         imps, classes, ref = form_ref(form, "Base", "K")
         for args in (["Dep"], ["Dep", "Other"], ["int"]):
             for extra in (False, True):
-                bases = [("", "%s[%s]" % (ref[1], ", ".join(args)))] + ([("", "Plain")] if extra else [])
+                bases = [("", "%s[%s]" % (cg.cref_src(ref), ", ".join(args)))] + ([("", "Plain")] if extra else [])
                 members = ([("attr", "field", ("gen1", "List", ("ref", ("", "Ann"))))] if extra else []) + [run]
                 f = dict(imports=imps + [("from", a) for a in args if a != "int"] + ([("from", "Plain")] if extra else []), classes=classes)
                 out.append(dict(what="base", file=f, cls=dict(name="K", bases=bases, members=members), base=ref, args=[("", a) for a in args],
@@ -529,14 +502,9 @@ def check_generic(ck):
         if ic[0]["cbo"] != len(ic[0]["deps"]):
             ck.violation("CBO %d is not the number of listed dependencies %s" % (ic[0]["cbo"], ic[0]["deps"]), replay)
         elif not ok:
-            e = ck.match_known(dict(c["tags"], **{"class": "subscript-form", "impl_equals_model": same_as_model}))
-            if e:
-                n_known += 1
-                ck.known_finding(e)
-            else:
-                n_bad += 1
-                if n_bad <= 3:
-                    ck.violation("CBO dependencies %s, the class names %s [%s]" % (sorted(deps), want, c["tags"]), replay)
+            n_bad += 1
+            if n_bad <= 3:
+                ck.violation("CBO dependencies %s, the class names %s [%s]" % (sorted(deps), want, c["tags"]), replay)
         elif not same_as_model:
             n_bad += 1
             if n_bad <= 3:
@@ -760,12 +728,8 @@ def e2e(ck, cases, impl):
         want = spec_risk(1, 2, cnt)
         if RISK.get(cl["RiskLevel"]) != want:
             tags = {"class": "toml-thresholds-ignored", "risk_follows_defaults": RISK.get(cl["RiskLevel"]) == spec_risk(3, 7, cnt)}
-            e = ck.match_known(tags)
-            if e:
-                ck.known_finding(e)
-            else:
-                ck.violation("risk level %s for CBO %d does not follow the configured thresholds low=1 medium=2" % (cl["RiskLevel"], cnt),
-                             {"kind": "e2e-thresholds", "toml": "[cbo] low_threshold = 1, medium_threshold = 2", "class": cl, "tags": tags})
+            ck.violation("risk level %s for CBO %d does not follow the configured thresholds low=1 medium=2" % (cl["RiskLevel"], cnt),
+                         {"kind": "e2e-thresholds", "toml": "[cbo] low_threshold = 1, medium_threshold = 2", "class": cl, "tags": tags})
     return n
 
 
@@ -861,23 +825,11 @@ def main(tier):
         if not c["inc"] and ic["deps"] != sdeps:
             missing = sorted(set(sdeps) - set(ic["deps"]))
             extra = sorted(set(ic["deps"]) - set(sdeps))
-            ug = refs_under_union_generic(c["cls"])
-            reasons = set()
-            for x in missing:
-                reasons.add("qualified-reference" if "." in x else "generic-in-union" if x in ug else "other")
-            if extra or not missing:
-                reasons.add("other")
-            entries = [ck.match_known(dict(c["tags"], **{"class": rs, "impl_equals_model": same_as_model})) for rs in sorted(reasons)]
-            tags = dict(c["tags"], **{"class": sorted(reasons), "impl_equals_model": same_as_model})
-            if entries and all(entries):
-                n_known += 1
-                for e in entries:
-                    ck.known_finding(e)
-            else:
-                n_viol += 1
-                if n_viol <= 6:
-                    ck.violation("CBO dependencies %s differ from the classes the class names %s (missing %s, extra %s) [%s]"
-                                 % (ic["deps"], sdeps, missing, extra, c["tags"]), replay)
+            replay["tags"] = dict(c["tags"], impl_equals_model=same_as_model)
+            n_viol += 1
+            if n_viol <= 6:
+                ck.violation("CBO dependencies %s differ from the classes the class names %s (missing %s, extra %s) [%s]"
+                             % (ic["deps"], sdeps, missing, extra, c["tags"]), replay)
             continue
         if not same_as_model:
             n_tie += 1
